@@ -350,6 +350,40 @@ var c14Faults = []c14Fault{
 		}
 		return recs
 	}},
+	{"long-values-without-spaces", func(r *fw.Rand, recs []*gen.Spec) []*gen.Spec {
+		// what Ancestry, FamilySearch or Find a Grave write: long addresses,
+		// paths and identifiers; text in languages written without spaces
+		long := []string{
+			"https://www.example.invalid/search/collections/1234/records/567890123?tid=&pid=&queryId=0123456789abcdef0123456789abcdef&_phsrc=abc123&_phstart=successSource",
+			"C:\\Users\\Genealogy\\Documents\\FamilyTree\\Media\\Scans\\Census\\1881\\Yorkshire\\Leeds\\RG11_4521_0034_household_schedule_117.jpg",
+			strings.Repeat("QUJDREVGR0hJSktMTU5PUFFSU1RVVldYWVo", 8),
+			strings.Repeat("家族の歴史と系図の記録", 6),
+			strings.Repeat("ประวัติครอบครัว", 8),
+			strings.Repeat("x", 81), strings.Repeat("y", 80) + " z", strings.Repeat("é", 41), strings.Repeat("-", 200),
+		}
+		for _, i := range c14Records(recs, "INDI") {
+			if !r.Chance(2, 3) {
+				continue
+			}
+			v := long[r.Intn(len(long))]
+			switch r.Intn(5) {
+			case 0:
+				i.Kids = append(i.Kids, &gen.Spec{Tag: "NOTE", Value: v})
+			case 1:
+				i.Kids = append(i.Kids, &gen.Spec{Tag: "SOUR", Value: "@S1@", Kids: []*gen.Spec{{Tag: "PAGE", Value: v}}})
+			case 2:
+				i.Kids = append(i.Kids, &gen.Spec{Tag: "OBJE", Kids: []*gen.Spec{{Tag: "FILE", Value: v}, {Tag: "TITL", Value: v}}})
+			case 3:
+				i.Kids = append(i.Kids, &gen.Spec{Tag: "RESI", Kids: []*gen.Spec{{Tag: "DATE", Value: "1881"}, {Tag: "PLAC", Value: v}, {Tag: "ADDR", Value: v}}})
+			case 4:
+				i.Kids = append(i.Kids, &gen.Spec{Tag: "NAME", Value: v + " /" + v + "/"}, &gen.Spec{Tag: "OCCU", Value: v}, &gen.Spec{Tag: "WWW", Value: v})
+			}
+		}
+		for _, s := range c14Records(recs, "SOUR") {
+			s.Kids = append(s.Kids, &gen.Spec{Tag: "TITL", Value: long[r.Intn(len(long))]}, &gen.Spec{Tag: "_LINK", Value: long[0]})
+		}
+		return recs
+	}},
 	{"no-dates-or-no-events-at-all", func(r *fw.Rand, recs []*gen.Spec) []*gen.Spec {
 		// nothing in the file says when anybody lived (what is estimated from
 		// relatives has to be estimated for everybody)
